@@ -56,7 +56,7 @@ def run(tier, seed, flavour="plain", prop="C01"):
     n, skipped = write_oracle(d, opath)
     n_units = sum(len(u["enumerators"]) for u in d["unit_types"])
     res = core.run_sharded([{"name": "c01_convert", "binary": paths["c01_convert"], "nshards": core.NCPU, "out": od,
-                             "args": ["--seed", str(seed), "--tier", tier, "--oracle", opath] + core.deep(tier, values=12000),
+                             "args": ["--seed", str(seed), "--tier", tier, "--oracle", opath] + core.deep(tier, values=12000) + core.boost(tier, flavour, values=1024),
                              "env": core.SAN_ENV if flavour == "san" else None}], timeout=3600)
     V.absorb(res)
     m = core.merge_summaries(res)
